@@ -89,9 +89,25 @@ Proof.
         (conj binary_reject_order_out_of_range (conj binary_reject_bad_multiplier multiplier_nan_rejected)))))).
 Qed.
 
-(* array model of the trie: under the invariant the writer establishes (monotone child ranges that end inside the array
-   below), a query with in-vocabulary word ids touches only in-range indices.
-   _partial: that the C++ writer establishes trie_ok is observed (ASan on every loaded mutant), not proved. *)
-Theorem C10_queries_in_bounds_partial : forall t vocab ngram, trie_ok t vocab ->
+(* array model of the trie (TrieArrays.v).  Under the invariant trie_ok (as many pointers as records plus an end pointer;
+   child ranges monotone and ending inside the array below) a query with in-vocabulary word ids touches only in-range
+   indices of every array ... *)
+Theorem C10_queries_in_bounds_under_invariant : forall t vocab ngram, trie_ok t vocab ->
   (forall w, In w ngram -> (N.to_nat w < vocab)%nat) -> Forall in_bounds (query t ngram).
 Proof. exact queries_in_bounds. Qed.
+
+(* ... the depth-first writer (one record per n-gram or blank, next = size of the level below at that moment, end pointers
+   set at the end: WriteEntries + FinishedLoading) establishes it for every tree of n-grams and every order >= 2 ... *)
+Theorem C10_writer_establishes_storage_invariant : forall fuel roots k, exists u M more,
+  build fuel roots (S k) = u :: M :: more /\
+  trie_ok {| t_unigram_next := lv_next u; t_levels := M :: more |} (length (lv_words u)).
+Proof. exact build_trie_ok. Qed.
+
+(* ... hence every in-vocabulary query on arrays the writer produced stays in bounds.
+   The array model is not part of the differential tie (no hook dumps the C++ arrays): on the C++ side this clause is observed
+   by querying every loaded mutant under ASan. *)
+Theorem C10_queries_in_bounds : forall fuel roots k u M more ngram,
+  build fuel roots (S k) = u :: M :: more ->
+  (forall w, In w ngram -> (N.to_nat w < length (lv_words u))%nat) ->
+  Forall in_bounds (query {| t_unigram_next := lv_next u; t_levels := M :: more |} ngram).
+Proof. exact built_queries_in_bounds. Qed.
